@@ -334,7 +334,7 @@ def engine_a(prop, tier, seed):
     sys.exit(0)
 
 
-SUB_ENGINES = {"C01": ["io", "huge"], "C02": ["zst", "zfull", "huge"], "C03": ["zst"], "C04": ["io"], "C07": ["huge"], "C10": ["zst", "own"], "C11": ["io", "big"], "C12": ["big"]}
+SUB_ENGINES = {"C01": ["io", "huge"], "C02": ["zst", "zfull", "huge"], "C03": ["zst"], "C04": ["io"], "C07": ["huge"], "C09": ["own"], "C10": ["zst", "own"], "C11": ["io", "big"], "C12": ["big"]}
 
 
 SIMPLE_LABEL = {"huge": "byte_buffers_at_capacities_around_2^32_cases_", "zfull": "full_zero_sized_buffers_at_extreme_capacities_cases_"}
